@@ -20,17 +20,29 @@ From V.Proofs Require Import TemplatesProofs SrcObligationsGen ClassSound ConvSo
       classes attrs / dataclasses can create (distinct names and aliases, mandatory positional attributes
       first) whose defaults conform to their own annotations.  Dict strategy; the tuple strategy is item 3. *)
 Theorem C02_structure_sound :
-  forall (E : env) (gen dv forbid : bool),
+  forall (E : env) (gen dv tup forbid : bool),
+    (tup = true -> src_tuple_by_kw = true) ->
     (forall p o v, e_coerce E p o = Ok v -> exists e, v = VAtom p e) ->
     (forall v l k, e_iter E v = Ok l -> e_len E v = Ok k -> length l = k) ->
-    (forall c cd, e_class E c = Some cd -> class_ok E (mk_cfg gen dv false forbid) c cd) ->
+    (forall c cd, e_class E c = Some cd -> class_ok E (mk_cfg gen dv tup forbid) c cd) ->
     forall (n : nat) (t : ty) (o v : val),
-      structure E (mk_cfg gen dv false forbid) n t o = Ok v -> conforms E v t.
+      structure E (mk_cfg gen dv tup forbid) n t o = Ok v -> conforms E v t.
 Proof.
-  intros E gen dv forbid H1 H2 H3.
-  apply structure_sound; [assumption | assumption | assumption | reflexivity | apply mk_cfg_recheck | apply mk_cfg_kw_last].
+  intros E gen dv tup forbid Ht H1 H2 H3.
+  apply structure_sound; [assumption | assumption | assumption | exact Ht | apply mk_cfg_recheck | apply mk_cfg_kw_last].
 Qed.
 Print Assumptions C02_structure_sound.
+
+(* for the current source the side-condition of the tuple strategy holds (obligation src_tuple_passes_kw_only_by_keyword) *)
+Theorem C02_structure_sound_both_strategies :
+  forall (E : env) (gen dv tup forbid : bool),
+    (forall p o v, e_coerce E p o = Ok v -> exists e, v = VAtom p e) ->
+    (forall v l k, e_iter E v = Ok l -> e_len E v = Ok k -> length l = k) ->
+    (forall c cd, e_class E c = Some cd -> class_ok E (mk_cfg gen dv tup forbid) c cd) ->
+    forall (n : nat) (t : ty) (o v : val),
+      structure E (mk_cfg gen dv tup forbid) n t o = Ok v -> conforms E v t.
+Proof. intros E gen dv tup forbid. apply C02_structure_sound. intros _. exact src_tuple_passes_kw_only_by_keyword. Qed.
+Print Assumptions C02_structure_sound_both_strategies.
 
 (* 2. "Never silently drops, defaults or passes through an invalid component": an accepted sequence
       payload is structured element by element -- same length, each output element is exactly what the
@@ -77,9 +89,8 @@ Print Assumptions C02_class_attributes_detailed.
 Print Assumptions C02_class_attributes_fast.
 Print Assumptions C02_class_attributes_interpretive.
 
-(* 3. The full statement is FALSE under the tuple strategy (finding F27): structure_attrs_fromtuple passes
-      the structured values positionally in attribute order, but a kw_only attribute is not a positional
-      parameter, so a later value lands on the wrong attribute.  Witness: class K(a: str = "d" (kw_only),
+(* 3. Passing everything positionally under the tuple strategy (finding F27, the code before its repair) is
+      UNSOUND: a kw_only attribute is not a positional parameter, so a later value lands on the wrong attribute.  Witness: class K(a: str = "d" (kw_only),
       b: int), payload ["x"]: accepted, and b holds the str. *)
 Local Open Scope N_scope.
 Definition w_coerce (p : prim) (o : val) : result val :=
@@ -110,12 +121,14 @@ Proof.
   - intros f d [<-|[<-|[]]]; cbn; intros Hd; inversion Hd; subst. constructor.
 Qed.
 
-Theorem C02_refuted_tuple_strategy :
+Definition positional_tuple_cfg (gen dv : bool) : ccfg :=
+  {| c_gen := gen; c_dv := dv; c_tuple := true; c_forbid := false; c_recheck := true; c_kw_last := true; c_tuple_kw := false |}.
+Theorem C02_refuted_positional_tuple_strategy :
   exists (E : env) (gen dv : bool) (t : ty) (o v : val),
     (forall p o v, e_coerce E p o = Ok v -> exists e, v = VAtom p e) /\
     (forall v l k, e_iter E v = Ok l -> e_len E v = Ok k -> length l = k) /\
-    (forall c cd, e_class E c = Some cd -> class_ok E (mk_cfg gen dv true false) c cd) /\
-    structure E (mk_cfg gen dv true false) 5 t o = Ok v /\ ~ conforms E v t.
+    (forall c cd, e_class E c = Some cd -> class_ok E (positional_tuple_cfg gen dv) c cd) /\
+    structure E (positional_tuple_cfg gen dv) 5 t o = Ok v /\ ~ conforms E v t.
 Proof.
   exists w_env, true, false, (TClass 1), (VList [VAtom PStr 9]), (VInst 1 [(1, VAtom PStr 8); (2, VAtom PStr 9)]).
   split; [exact w_coerce_ok|]. split; [intros v l k H; discriminate|]. split; [apply w_class_ok|].
@@ -124,7 +137,7 @@ Proof.
   cbn in Hc. inversion Hc; subst cd.
   destruct (Ha 2 (VAtom PStr 9) eq_refl) as (_ & Hbad). cbn in Hbad. inversion Hbad.
 Qed.
-Print Assumptions C02_refuted_tuple_strategy.
+Print Assumptions C02_refuted_positional_tuple_strategy.
 
 (* non-vacuity of item 1: the same class under the dict strategy; a nested payload (a list of two
    instances, one given by a default) is accepted, one with a corrupted leaf is rejected in both modes *)
